@@ -20,8 +20,8 @@ type Consul struct {
 }
 
 type kvEnt struct {
-	Value               string
-	Create, Modify      uint64
+	Value          string
+	Create, Modify uint64
 }
 
 // NewConsul creates an empty store.
